@@ -256,7 +256,8 @@ class C02(Prop):
             # ---- named constraints
             cons = e.get("constraints") or {}
             for key, kind in (("primary_keys", "pk"), ("uniques", "uq")):
-                expn = sorted((it["name"], list(it["cols"])) for it in case["titems"] if it["kind"] == kind and it["name"])
+                # names starting with UC_ are what the library invents for unnamed UNIQUE clauses: left out on both sides
+                expn = sorted((it["name"], list(it["cols"])) for it in case["titems"] if it["kind"] == kind and it["name"] and not it["name"].startswith("UC_"))
                 gotn = sorted((x["constraint_name"], list(x["columns"])) for x in cons.get(key, []) if not str(x["constraint_name"]).startswith("UC_"))
                 if expn != gotn:
                     out.fail("named-" + key, "expected %r got %r; %r" % (expn, gotn, ddl))
